@@ -253,10 +253,16 @@ MainLoop:
 			}
 			s.remoteState = state(msg.State)
 			s.remoteMinRxInterval = bfdIntervalToDuration(msg.RequiredMinRxInterval)
+			// RFC 5880, Section 6.8.6: bfd.RemoteDiscr is set from every accepted packet, not
+			// only while it is unknown. A remote that restarted with a new discriminator (or a
+			// single stray packet seen while bootstrapping) would otherwise leave a stale value
+			// here for as long as packets keep arriving; a remote that selects its session by
+			// Your Discriminator discards everything we send with it, and the session never
+			// comes up again.
 			if s.getRemoteDiscriminator() == 0 {
-				s.setRemoteDiscriminator(msg.MyDiscriminator)
 				logger.Debug("Bootstrapped")
 			}
+			s.setRemoteDiscriminator(msg.MyDiscriminator)
 
 			// If we transitioned out of the down state, we cancel the current send timer
 			// (because it might send too late to keep the session up) and set up a new
